@@ -17,6 +17,7 @@ CHECKS = {
     "C10": dict(spec="TblClientAuth", consts={Q: {}, T: {}}, tables=[("VERIF_TABLE_CLIENTAUTH", "c10", "clientauth")], cap={Q: 10**7, T: 10**7}),
     "C06": dict(spec="TblHmac", consts={Q: {}, T: {}}, tables=[("VERIF_TABLE_HMAC", "c06hmac", "hmac"), ("VERIF_TABLE_JWT", "c06jwt", "jwt")],
                 cap={Q: 10**7, T: 10**7}, n={Q: 4, T: 120}),
+    "C20": dict(spec="TblErrorWire", consts={Q: {}, T: {}}, tables=[("VERIF_TABLE_ERRWIRE", "c20wire", "errwire")], cap={Q: 10**7, T: 10**7}),
     "C15": dict(spec="TblAssertion", consts={Q: {"MaxDev": 2}, T: {"MaxDev": 3}}, tables=[("VERIF_TABLE_ASSERT", "c15", "assert")], cap={Q: 10**7, T: 10**7}),
     "C14": dict(spec="TblIDToken", consts={Q: {}, T: {}}, tables=[("VERIF_TABLE_IDT", "c14", "idt")], cap={Q: 10**7, T: 10**7}),
     "C13": dict(spec="TblAuthz", consts={Q: {}, T: {}}, tables=[("VERIF_TABLE_AUTHZ", "c13", "authz")], cap={Q: 16000, T: 10**7}),
@@ -120,7 +121,17 @@ def corrupt_c14(rows, rnd):
     return out
 
 
-CORRUPT = {"c15": corrupt_c06, "c14": corrupt_c14, "c06hmac": corrupt_c06, "c06jwt": corrupt_c06, "c11": corrupt_c11, "c07life": corrupt_c07, "c10": corrupt_c10, "c13": corrupt_c13}
+def corrupt_c20(rows, rnd):
+    out = []
+    cand = [r for r in rows if r["place"] == "json" and r["writer"] == "access"]
+    for r in rnd.sample(cand, min(3, len(cand))):
+        r = dict(r)
+        r["status"] += 1
+        out.append(r)
+    return out
+
+
+CORRUPT = {"c20wire": corrupt_c20, "c15": corrupt_c06, "c14": corrupt_c14, "c06hmac": corrupt_c06, "c06jwt": corrupt_c06, "c11": corrupt_c11, "c07life": corrupt_c07, "c10": corrupt_c10, "c13": corrupt_c13}
 ATTACHED = {"C07": "C07L"}      # decision tables that are part of a stateful check
 
 
@@ -182,6 +193,11 @@ def check(prop, tier, seed, replay=None):
         return 0
 
     nviol, cov = run(prop, prop, tier, seed, binary, wd)
+    if prop == "C20":   # second half: nothing handed to storage is a usable secret
+        sv, scov = storage_events_part(prop, binary, wd)
+        nviol += sv
+        cov["storage_events"] = scov
+        cov["traces_validated_against_impl"] += scov["events"]
     if prop == "C15":   # "a given jti is accepted at most once, also when identical requests arrive concurrently"
         import steps
         findings = [f for f in load_findings() if f.get("status") == "open"]
@@ -200,6 +216,53 @@ def check(prop, tier, seed, replay=None):
     shutil.rmtree(wd, ignore_errors=True)
     log(f"[done] {prop} {tier}: violations={nviol} rows={cov['traces_validated_against_impl']}/{cov['states']} wall={time.time()-t0:.1f}s")
     return 1 if nviol else 0
+
+
+def storage_events_part(prop, binary, wd):
+    ev = os.path.join(wd, "events.ndjson")
+    p = run_harness(binary, "TestStorageEvents", {"VERIF_OUT": ev})
+    if p.returncode != 0 or not os.path.exists(ev):
+        raise Indeterminate("storage event recorder failed:\n" + p.stdout[-2000:] + p.stderr[-2000:])
+    rep = os.path.join(wd, "events_report.json")
+    sub = os.path.join(wd, "events_tlc")
+    os.makedirs(sub, exist_ok=True)
+    rc, out = tlc(sub, "StoreEvents", "SPECIFICATION Spec\nCHECK_DEADLOCK FALSE\nPOSTCONDITION Consumed\n", ["-workers", "1"],
+                  env={"VERIF_TRACE": ev, "VERIF_REPORT": rep}, heap="2g", timeout=600, cfg_name="events.cfg")
+    if not os.path.exists(rep) or "No error has been found" not in out:
+        raise Indeterminate("validation of the storage events did not complete:\n" + out[-3000:])
+    r = json.load(open(rep))
+    if r["events"] < 200:
+        raise Indeterminate(f"only {r['events']} storage events were recorded (dead driver)")
+    findings = [f for f in load_findings() if f.get("status") == "open" and f["property"] == prop]
+    groups = {}
+    for v in r["violations"]:
+        groups.setdefault(f"storage-{v['what']}/{v['method']}/{v['class']}", []).append(v)
+    nviol, known = 0, set()
+    for fp, lst in sorted(groups.items()):
+        kf = [f for f in findings if re.fullmatch(f["fingerprint"], fp)]
+        if kf:
+            if kf[0]["id"] not in known:
+                known.add(kf[0]["id"])
+                print(f"KNOWN-FINDING: property={prop} {kf[0]['what']}")
+            continue
+        path = write_replay(prop, "events_" + hashlib.sha1(fp.encode()).hexdigest()[:10],
+                            {"property": prop, "kind": "storage_events", "fingerprint": fp, "scenarios": sorted({v["scenario"] for v in lst}), "occurrences": len(lst)})
+        log(f"VIOLATION-DETAIL x{len(lst)} [{fp}] in scenarios {sorted({v['scenario'] for v in lst})[:4]}")
+        print(f"VIOLATION property={prop} replay={path}")
+        nviol += 1
+    # self-test: a planted secret in the recorded events must be reported
+    lines = open(ev).read().splitlines()
+    e0 = json.loads(lines[0])
+    e0["keys"] = ["full:rt"]
+    planted = os.path.join(wd, "events_planted.ndjson")
+    open(planted, "w").write("\n".join([json.dumps(e0)] + lines[1:]) + "\n")
+    rep2 = os.path.join(wd, "events_report2.json")
+    tlc(sub, "StoreEvents", "SPECIFICATION Spec\nCHECK_DEADLOCK FALSE\nPOSTCONDITION Consumed\n", ["-workers", "1"],
+        env={"VERIF_TRACE": planted, "VERIF_REPORT": rep2}, heap="2g", timeout=600, cfg_name="events.cfg")
+    if not os.path.exists(rep2) or not any(v["class"] == "full:rt" for v in json.load(open(rep2))["violations"]):
+        raise Indeterminate("self-test FAILED: a planted complete refresh token as storage key was not reported")
+    log(f"[events] {r['events']} storage events validated, {len(groups)} violating classes ({len(known)} known); planted secret rejected")
+    return nviol, {"events": r["events"], "violating_classes": sorted(groups.keys()), "known_findings_seen": sorted(known)}
 
 
 ASSUMPTIONS = [
